@@ -558,8 +558,54 @@ def t_fresh():
     return stats
 
 
+CUSTOM_TEMPLATES = ["{R}[?{K} == {R}.want]", "{R}[?{K} == {C}.a]", "{R}[?{K} == 'b']", "{R}..[?{K} == {R}.want]", "{R}[?match({K}, {R}.pat)]",
+                    "{R}[?{K} in {R}.keys]", "{R}[?{R}.want == {K}]", "{R}[?{S} == 2 || {K} == {R}.want]", "{R}[?{K} == {R}.want && {S} > 1]",
+                    "{R}[?{C}.a == {K} || {R}.want == {K}]", "{R}.o[?{K} == {R}.want]", "{R}[?{K} != {R}.want]", "{R}[?{S}[?{K} == {R}.want]]",
+                    "{R}[?{K} == {R}.want] | {R}.o[?{K} == {C}.a]", "{R}[?{R}.want == 'b']", "{R}[?{C}.a == 'c' && {S}]"]
+CUSTOM_SPELLINGS = [{"K": "#", "R": "$", "S": "@", "C": "_"}, {"K": "~", "R": "$", "S": "@", "C": "_", "keys": "%k"}, {"K": "%key", "R": "$", "S": "@", "C": "_"},
+                    {"K": "#", "R": "root", "S": "self", "C": "ctx"}, {"K": "KEY", "R": "$$", "S": "@@", "C": "__"}]
+CUSTOM_DOCS = [{"want": "b", "a": 1, "b": 2, "c": 3, "pat": "[bc]", "keys": ["a", "c"], "o": {"a": 1, "b": 2, "c": [1]}},
+               {"want": "c", "a": 2, "b": {"b": 1, "c": 2}, "c": 2, "pat": "a", "keys": [], "o": {"c": 0}},
+               {"want": "want", "o": {"want": {"want": 1}}, "pat": ".*", "keys": ["want", "o"]}]
+
+
+def t_custom_tokens():
+    """the same purity demand in environments whose identifier tokens are renamed: a compiled query in a caching environment gives,
+    on every document and on every repetition, what a brand-new caching-off environment of the same class gives"""
+    stats = Stats()
+    n = 0
+    for sp in CUSTOM_SPELLINGS:
+        attrs = {"key_token": sp["K"], "root_token": sp["R"], "self_token": sp["S"], "filter_context_token": sp["C"]}
+        if "keys" in sp:
+            attrs["keys_selector_token"] = sp["keys"]
+        cls = type("CustomEnv", (JSONPathEnvironment,), attrs)
+        env_on = cls(filter_caching=True)
+        for tpl in CUSTOM_TEMPLATES:
+            text = tpl.format(**sp)
+            try:
+                p = env_on.compile(text)
+            except Exception as e:  # noqa: BLE001
+                raise AssertionError("harness: %r does not compile under %r: %s" % (text, sp, e))
+            for ctx in ({"a": "c"}, {"a": "b"}):
+                for rep in range(2):
+                    for i, d in enumerate(CUSTOM_DOCS):
+                        stats.ev()
+                        n += 1
+                        want = [(tuple(m.parts), canon(m.obj)) for m in cls(filter_caching=False).finditer(text, copy.deepcopy(d), filter_context=copy.deepcopy(ctx))]
+                        got = [(tuple(m.parts), canon(m.obj)) for m in p.finditer(d, filter_context=ctx)]
+                        if got != want:
+                            stats.fail("custom-tokens:cache-on-vs-off", {"text": text, "spelling": sp, "doc": d, "ctx": ctx, "origin": "custom"},
+                                       "%r (tokens %r) use %d on document %d: %s with caching, %s from a fresh uncached environment" % (
+                                           text, sp, rep, i, short(got, 160), short(want, 160)))
+                        if want:
+                            stats.nt("custom", text, i, canon(ctx))
+    stats.subspaces.append({"name": "%d templates x %d token spellings x 2 contexts x 2 repetitions x %d documents, caching on vs fresh caching off" % (
+        len(CUSTOM_TEMPLATES), len(CUSTOM_SPELLINGS), len(CUSTOM_DOCS)), "size": n, "exhaustive": True})
+    return stats
+
+
 def tasks(tier, seed):
-    ts = [{"name": "fresh", "fn": "t_fresh"}, {"name": "threads", "fn": "t_threads", "kw": {"seed": mix(seed, ID, "t"), "rounds": 40 if tier == "quick" else 600}}]
+    ts = [{"name": "fresh", "fn": "t_fresh"}, {"name": "custom-tokens", "fn": "t_custom_tokens"}, {"name": "threads", "fn": "t_threads", "kw": {"seed": mix(seed, ID, "t"), "rounds": 40 if tier == "quick" else 600}}]
     nm, nd = (150, 1200) if tier == "quick" else (2500, 20000)
     for k in range(10):
         ts.append({"name": "machine-%d" % k, "fn": "t_machine", "kw": {"seed": mix(seed, ID, "m", k), "n": nm}})
@@ -578,6 +624,13 @@ def replay(case):
         for sig, (n, fs) in st.failures.items():
             for f in fs:
                 if f["case"].get("query") == case.get("query") and f["case"].get("api") == case.get("api"):
+                    stats.fail(sig, f["case"], f["detail"])
+        return stats
+    if case.get("origin") == "custom":
+        st = t_custom_tokens()
+        for sig, (n, fs) in st.failures.items():
+            for f in fs:
+                if f["case"].get("text") == case.get("text") and f["case"].get("spelling") == case.get("spelling"):
                     stats.fail(sig, f["case"], f["detail"])
         return stats
     docs = copy.deepcopy(case["docs"])
